@@ -116,8 +116,8 @@ func (r *routeStub) GetRoute(context.Context, boson.Address) ([]*routetab.Path, 
 func (r *routeStub) FindRoute(context.Context, boson.Address, ...time.Duration) ([]*routetab.Path, error) {
 	return nil, routetab.ErrNotFound
 }
-func (r *routeStub) DelRoute(context.Context, boson.Address) error   { return nil }
-func (r *routeStub) Connect(context.Context, boson.Address) error    { return r.connectErr }
+func (r *routeStub) DelRoute(context.Context, boson.Address) error { return nil }
+func (r *routeStub) Connect(context.Context, boson.Address) error  { return r.connectErr }
 func (r *routeStub) GetTargetNeighbor(context.Context, boson.Address, int) ([]boson.Address, error) {
 	if len(r.neighbors) == 0 {
 		return nil, routetab.ErrNotFound
